@@ -21,7 +21,7 @@ theorem sync_init (body : List Nat) : Sync body [] 0 := by
 
 /-- `X` is a run of ASCII codewords that decodes to `chunk` -/
 def AsciiSeg (X chunk : List Nat) : Prop :=
-  (∀ c ∈ X, c ≠ 254 ∧ c ≠ 129) ∧
+  (∀ c ∈ X, c ≠ 254 ∧ c ≠ 129 ∧ c ≠ 232 ∧ c ≠ 236 ∧ c ≠ 237) ∧
   ∀ (tail : List Nat) (e : Nat) (out : List Nat) (ecis : List (Nat × Nat)),
     decodeAscii (X ++ tail) e out ecis false 0 = decodeAscii tail (e + X.length) (out ++ chunk) ecis false 0
 
